@@ -375,6 +375,8 @@ impl<'r> Gen<'r> {
         let n = match self.rng.below(20) {
             0..=13 => self.rng.below(7),
             14..=18 => self.rng.range(7, 12),
+            // far beyond, and now and then more than a hundred (mostly repeats: a hundred leaves and more)
+            _ if self.rng.pct(3) => self.rng.range(100, 170),
             _ => self.rng.range(13, 40),
         };
         let pool = self.rng.range(1, KEY_POOL.len());
@@ -577,7 +579,9 @@ impl<'r> Gen<'r> {
             };
             let count = if fd.multiple {
                 if present {
-                    if self.rng.pct(5) {
+                    if self.rng.pct(1) {
+                        self.rng.range(100, 140)
+                    } else if self.rng.pct(5) {
                         self.rng.range(4, 20)
                     } else {
                         self.rng.range(1, 3)
@@ -876,7 +880,11 @@ pub fn generate(run_seed: u64, mode: &'static str, recvs: &'static std::collecti
 
 pub const ELEM_RECEIVERS: [&str; 27] = ["AT4", "DI9", "VR5", "AT3", "FR6", "VR4", "TR3", "FR5", "VR3", "TR2", "DI8", "FR4", "DI7", "FR1", "FR2", "FR3", "VR1", "VR2", "TR1", "DI1", "DI2", "DI3", "DI4", "DI5", "DI6", "AT1", "AT2"];
 
-const FOREIGN: [&str; 8] = ["doc = \"hi\"", "cfg(test)", "keep", "keep(1 2)", "derive(Debug)", "other(a = 1)", "allow(dead_code)", "zz::yy(=)"];
+const FOREIGN: [&str; 14] = [
+    "doc = \"hi\"", "cfg(test)", "keep", "keep(1 2)", "derive(Debug)", "other(a = 1)", "allow(dead_code)", "zz::yy(=)",
+    // paths that extend a name the receiver knows (`a`, `b`, `doc`, `keep`): different attributes
+    "a::b", "a::b(c = 1)", "b::x = 1", "doc::hidden", "keep::this(too)", "a::b::c(d)",
+];
 
 impl<'r> Gen<'r> {
     /// Split `items` over 1..4 attributes named from `names`, interleaved with attributes nobody asked for.
